@@ -314,6 +314,110 @@ theorem builder_stack_empty (scope skips : Nat → Bool) (exts : List When) (t :
     (h : consistent skips t) : stackRun scope skips (walkabout exts t).1 [] = some [] :=
   stack_walkabout scope skips exts t h []
 
+/-! ## the general walk: pruning raised by `depart_*`, nodes visited from inside a `visit_*`
+
+`walkaboutG inl dact` is what the code does when the main visitor's `depart_*` of node `n` raises `dact n`
+and its `visit_*` of node `n` visits the nodes `inl n` itself.  The full statements
+
+    ∀ inl dact exts t e, e < exts.length → isDyck (restrict (.ext e) (walkaboutG inl dact exts t).1) = true
+    ∀ inl dact exts t, (walkaboutG inl dact exts t).2 = some x → x = .skipSiblings
+
+are FALSE of the current code (`departure_prune_unbalanced_counterexample`, `departure_prune_escape_counterexample`,
+`inline_visit_unbalanced_counterexample`, `inline_visit_order_counterexample`); they hold — and every theorem above
+applies, because the walk IS `walkabout` — when no departure raises and no visit method visits nodes itself. -/
+
+/-- no `depart_*` of a node of `t` raises, no `visit_*` of a node of `t` visits other nodes itself -/
+def Plain (inl : Nat → List Nat) (dact : Nat → Act) (l : List Nat) : Prop :=
+  ∀ n ∈ l, inl n = [] ∧ dact n = .none
+
+instance (inl : Nat → List Nat) (dact : Nat → Act) (l : List Nat) : Decidable (Plain inl dact l) := by
+  unfold Plain; exact inferInstance
+
+def excOf (b : Bool) : Option Act := if b then some .skipSiblings else none
+
+theorem visitEventsG_plain (inl : Nat → List Nat) (exts : List When) (id : Nat) (h : inl id = []) :
+    visitEventsG inl exts id = visitEvents exts id := by
+  simp [visitEventsG, visitEvents, h]
+
+theorem finishG_plain (dact : Nat → Act) (exts : List When) (id : Nat) (act : Act) (tr : List Event)
+    (extOnly : Bool) (h : dact id = .none) :
+    finishG dact exts id act tr extOnly =
+      (tr ++ departEvents exts id extOnly, if act = .skipSiblings then some .skipSiblings else none) := by
+  cases extOnly <;> simp [finishG, departEventsG, departEvents, h]
+
+mutual
+theorem walkaboutG_plain (inl : Nat → List Nat) (dact : Nat → Act) (exts : List When) :
+    (t : Tree) → Plain inl dact (ids t) →
+      walkaboutG inl dact exts t = ((walkabout exts t).1, excOf (walkabout exts t).2)
+  | .node id act cs => by
+    intro h
+    have hid : inl id = [] ∧ dact id = .none := h id (by simp [ids])
+    have hcs : Plain inl dact (idsList cs) := fun n hn => h n (by simp [ids, hn])
+    obtain ⟨k1, k2⟩ := walkChildrenG_plain inl dact exts cs hcs
+    cases act <;>
+      rcases k2 with k2 | k2 <;>
+      simp [walkaboutG, walkabout, excOf, k1, k2, finishG_plain, visitEventsG_plain, hid.1, hid.2]
+theorem walkChildrenG_plain (inl : Nat → List Nat) (dact : Nat → Act) (exts : List When) :
+    (ts : List Tree) → Plain inl dact (idsList ts) →
+      (walkChildrenG inl dact exts ts).1 = walkChildren exts ts ∧
+      ((walkChildrenG inl dact exts ts).2 = none ∨ (walkChildrenG inl dact exts ts).2 = some .skipSiblings)
+  | [] => by intro _; simp [walkChildrenG, walkChildren]
+  | t :: ts => by
+    intro h
+    have h1 := walkaboutG_plain inl dact exts t (fun n hn => h n (by simp [idsList, hn]))
+    obtain ⟨k1, k2⟩ := walkChildrenG_plain inl dact exts ts (fun n hn => h n (by simp [idsList, hn]))
+    cases hb : (walkabout exts t).2 <;>
+      simp [walkChildrenG, walkChildren, h1, hb, excOf, k1, k2]
+end
+
+/-- **general_walk_partial**: when no `depart_*` raises and no `visit_*` visits nodes itself, the general
+walk is `walkabout` — so `prune_meaning`, `nested`, `balanced`, `enter_once`, `main_trace`, `escape_iff` and
+`builder_stack_empty` speak about it. -/
+theorem general_walk_partial (inl : Nat → List Nat) (dact : Nat → Act) (exts : List When) (t : Tree)
+    (h : Plain inl dact (ids t)) :
+    walkaboutG inl dact exts t = ((walkabout exts t).1, excOf (walkabout exts t).2) :=
+  walkaboutG_plain inl dact exts t h
+
+/-- **balanced_general_partial**: … in particular every extension that entered a node leaves it. -/
+theorem balanced_general_partial (inl : Nat → List Nat) (dact : Nat → Act) (exts : List When) (t : Tree)
+    (h : Plain inl dact (ids t)) (e : Nat) (he : e < exts.length) :
+    isDyck (restrict (.ext e) (walkaboutG inl dact exts t).1) = true := by
+  rw [general_walk_partial inl dact exts t h]
+  exact balanced exts t e he
+
+def exTree3 : Tree := .node 0 .none [.node 1 .none [], .node 2 .none []]
+
+example : Plain (fun _ => []) (fun _ => .none) (ids exTree3) := by decide
+
+/-- `SkipSiblings` raised by the main visitor's departure of node 1: node 2 is skipped as asked, but the
+AFTER (and OUTTER) extension entered node 1 and never leaves it. -/
+theorem departure_prune_unbalanced_counterexample :
+    isDyck (restrict (.ext 0) (walkaboutG (fun _ => []) (fun n => if n = 1 then .skipSiblings else .none)
+      [.after] exTree3).1) = false
+    ∧ isDyck (restrict (.ext 0) (walkaboutG (fun _ => []) (fun n => if n = 1 then .skipSiblings else .none)
+      [.outter] exTree3).1) = false
+    ∧ (restrict (.ext 0) (walkaboutG (fun _ => []) (fun n => if n = 1 then .skipSiblings else .none)
+      [.before] exTree3).1).contains (.visit, 2) = false := by decide
+
+/-- `SkipNode` raised by the main visitor's departure of node 1 leaves every enclosing `walkabout`:
+the root is entered and never left, by the main visitor and by every extension. -/
+theorem departure_prune_escape_counterexample :
+    (walkaboutG (fun _ => []) (fun n => if n = 1 then .skipNode else .none) [.before] exTree3).2 = some .skipNode
+    ∧ isDyck (restrict (.ext 0) (walkaboutG (fun _ => []) (fun n => if n = 1 then .skipNode else .none)
+      [.before] exTree3).1) = false := by decide
+
+/-- the AST builder on `Module(body=[Expr(value=Call)])` = nodes 0, 1 and (inline) 2: every extension enters the
+value of the expression statement and never leaves it … -/
+theorem inline_visit_unbalanced_counterexample :
+    isDyck (restrict (.ext 0) (walkaboutG (fun n => if n = 1 then [2] else []) (fun _ => .none) [.before]
+      (.node 0 .none [.node 1 .none []])).1) = false := by decide
+
+/-- … and an AFTER extension enters the value (2) before the statement (1) it belongs to. -/
+theorem inline_visit_order_counterexample :
+    restrict (.ext 0) (walkaboutG (fun n => if n = 1 then [2] else []) (fun _ => .none) [.after]
+      (.node 0 .none [.node 1 .none []])).1
+      = [(.visit, 0), (.visit, 2), (.visit, 1), (.depart, 1), (.depart, 0)] := by decide
+
 /-! ## non-vacuity and the pre-fix counterexample -/
 
 def exTree : Tree :=
